@@ -294,7 +294,7 @@ V1CreateFields ==
            << <<"hamming", "reject">>, <<"jaccard", "reject">>, <<"haversine", "reject">> >>) >>
 
 \* one point of the kitchen collection (vec: vamana 4, flat: flat 3, txt text, str string, num integer,
-\* flt float, tags stringArray, nest.n integer); idreq: update (the id is required and must exist)
+\* flt float, tags stringArray, nest.n integer, deep.a.b integer); idreq: update (the id is required and must exist)
 KitchenPoint(idreq) ==
   << FObj("", IF idreq THEN "y" ELSE "n"),      \* the insert request carries two points, the update one
      With(FUuid("_id", IF idreq THEN "y" ELSE "n", FALSE),
@@ -309,6 +309,9 @@ KitchenPoint(idreq) ==
      With(FStrs("tags", "n", 0), << M("elemstr", 0, "", "accept") >>),
      FObj("nest", "n"),
      Loose(FInt("nest/n", "n", -Unb, Unb)),
+     FObj("deep", "n"),
+     FObj("deep/a", "n"),
+     Loose(FInt("deep/a/b", "n", -Unb, Unb)),
      With(FFree("extra"),
           << M("addprop", 0, "_distance", "either"), M("addprop", 0, "_score", "either"), M("addprop", 0, "", "either"),
              M("addprop", 0, "a.b", "either"), M("addprop", 0, "unicode", "either") >>) >>
